@@ -35,6 +35,7 @@ fn main() {
     let mut rng = Rng::new(seed);
     let mut out: Vec<Violation> = Vec::new();
     let (mut systems, mut perms, mut renums, mut compared) = (0usize, 0usize, 0usize, 0usize);
+    let mut unsat_value_comparisons = 0usize;
     for i in 0..n {
         let mut sys = match i % 4 {
             0 => gen_planted(&mut rng, 8, 1e-3, &SHAPES),
@@ -128,6 +129,18 @@ fn main() {
                         break;
                     }
                 }
+            } else if base.outcome.iterations() <= 12 && other.outcome.iterations() <= 12 {
+                // a best-effort result (something stays unsatisfied: the least-squares compromise): the
+                // variables that are not under-constrained must still agree, a little less tightly
+                unsat_value_comparisons += 1;
+                for v in 0..nvars {
+                    if under.contains(&(v as u32)) || other.analysis.underconstrained().contains(&(v as u32)) { continue; }
+                    let d = (other.outcome.final_values()[v] - base.outcome.final_values()[v]).abs();
+                    if d > 1e-5 * scale {
+                        bad(format!("variable {v} of a best-effort (partly unsatisfied) result differs by {d:.3e} after permuting the requests"), "perm-values-best-effort");
+                        break;
+                    }
+                }
             }
         }
         // --- variable renumbering
@@ -177,5 +190,5 @@ fn main() {
             println!("VIOLATION {}", v.to_json());
         }
     }
-    println!("STATS {{\"systems\": {systems}, \"request_permutations\": {perms}, \"renumberings\": {renums}, \"outcomes_compared\": {compared}, \"violations\": {}}}", out.len());
+    println!("STATS {{\"systems\": {systems}, \"request_permutations\": {perms}, \"renumberings\": {renums}, \"outcomes_compared\": {compared}, \"best_effort_results_compared_by_value\": {unsat_value_comparisons}, \"violations\": {}}}", out.len());
 }
